@@ -24,7 +24,7 @@ WIN = st.lists(st.tuples(st.integers(0, 63), st.integers(0, 63), st.sampled_from
 
 
 def strategy(tier):
-    return st.tuples(gen.tiered(tier, max_ops=12, rejects=False, attrs='handles'), WIN, WIN).map(
+    return st.tuples(gen.tiered(tier, max_ops=12, rejects=False, attrs='handles', shifts=True), WIN, WIN).map(
         lambda x: dict(x[0], win=[list(w) for w in x[1]], win2=[list(w) for w in x[2]]))
 
 
@@ -84,7 +84,7 @@ def run_case(case, rec):
     nontrivial = False
     for wi, w in enumerate(case['win']):
         a, b, mode = window(pts, w)
-        ctx = 'time_slice(%r, %r)' % (a, b)
+        ctx = 'time_slice(%s, %s)' % (common.R(a), common.R(b))
         ok, before = safe(observe, G, d.nodes, M.probes())
         if not ok:
             rec.check('C06.observe', False, 'observe(G) raised %r' % (before,))
@@ -139,7 +139,7 @@ def run_case(case, rec):
             if mode2 != 'inverted':
                 if dd is None:
                     dd = c
-                ctx2 = '%s.time_slice(%r, %r)' % (ctx, c, dd)
+                ctx2 = '%s.time_slice(%s, %s)' % (ctx, common.R(c), common.R(dd))
                 ok, H2 = safe(H.time_slice, c, dd)
                 if rec.check('C06.compose.call', ok, lambda: '%s raised %r' % (ctx2, H2)):
                     H2m = M.slice(max(lo, c), min(hi, dd)) if max(lo, c) <= min(hi, dd) else M.slice(1, 0)
